@@ -1,3 +1,4 @@
+import UscxmlVerif.Model.Tok
 /-!
 # Well-nestedness of monitor notifications (the oracle for C13)
 
@@ -8,13 +9,14 @@ entries; every `before` is closed by the matching `after`; executable content is
 inside a state exit, a transition, a state entry or the completion bracket, properly nested.
 -/
 namespace UscxmlVerif.Spec.Nesting
+open UscxmlVerif.Model
 
 inductive Frame where
   | micro (phase : Nat)          -- 0 exits, 1 transitions, 2 entries
   | exitS (id : String)
   | enterS (id : String)
   | trans (id : String)
-  | content (id : String)
+  | content (id : Nat)
   | completion
   | invoking (id : String)
   | uninvoking (id : String)
@@ -26,55 +28,83 @@ def splitTok (t : String) : String × String :=
   | a :: rest => (a, ":".intercalate rest)
   | [] => ("", "")
 
-/-- `none` = violation at this token -/
-def stepTok (stack : List Frame) (t : String) : Option (List Frame) :=
+/-- content elements without a `uvid` are reported by the harness as `?<element name>` -/
+def contentId (v : String) : Nat :=
+  match v.toNat? with
+  | some n => n
+  | none => 1000000 + v.foldl (fun h ch => h * 31 + ch.toNat) 7 % 1000000
+
+/-- the harness spelling read back -/
+def parseTok (t : String) : Tok :=
   let (k, v) := splitTok t
-  match k, stack with
+  match k with
+  | "bpe" => .bpe v | "bm" => .bm | "am" => .am
+  | "bx" => .bx v | "ax" => .ax v | "bt" => .bt v | "at" => .at v | "be" => .be v | "ae" => .ae v
+  | "bc" => .bc (contentId v) | "ac" => .ac (contentId v)
+  | "log" => .log v | "st" => .st | "bcomp" => .bcomp | "acomp" => .acomp | "issue" => .issue
+  | "ret" => .ret v
+  | "bi" => .raw t | "ai" => .raw t | "bu" => .raw t | "au" => .raw t
+  | _ => .raw t
+
+/-- `none` = violation at this token -/
+def stepTok (stack : List Frame) : Tok → Option (List Frame)
   -- tokens that carry no nesting information
-  | "ret", _ => some stack
-  | "cfg", _ => some stack
-  | "hist", _ => some stack
-  | "log", _ => some stack
-  | "issue", [] => some stack
-  | "bpe", [] => some stack
-  | "st", [] => some stack
-  | "bm", [] => some [.micro 0]
-  | "am", [.micro _] => some []
-  | "bcomp", [] => some [.completion]
-  | "acomp", [.completion] => some []
-  | "bi", [] => some [.invoking v]
-  | "ai", [.invoking w] => if v == w then some [] else none
-  | "bu", [] => some [.uninvoking v]
-  | "au", [.uninvoking w] => if v == w then some [] else none
-  | "bu", [.completion] => some [.uninvoking v, .completion]
-  | "au", [.uninvoking w, .completion] => if v == w then some [.completion] else none
+  | .ret _ => some stack
+  | .log _ => some stack
+  | .note _ => some stack
+  | .raw s =>
+    let (k, v) := splitTok s
+    match k, stack with
+    | "bi", [] => some [.invoking v]
+    | "ai", [.invoking w] => if v == w then some [] else none
+    | "bu", [] => some [.uninvoking v]
+    | "au", [.uninvoking w] => if v == w then some [] else none
+    | "bu", [.completion] => some [.uninvoking v, .completion]
+    | "au", [.uninvoking w, .completion] => if v == w then some [.completion] else none
+    | "bu", .exitS x :: rest => some (.uninvoking v :: .exitS x :: rest)
+    | "au", .uninvoking w :: .exitS x :: rest => if v == w then some (.exitS x :: rest) else none
+    | "bi", _ => none | "ai", _ => none | "bu", _ => none | "au", _ => none
+    | _, _ => some stack          -- cfg:…, DIVERGE, cancel, reset, destroyed, state:…
+  | .issue => match stack with | [] => some [] | _ => none
+  | .bpe _ => match stack with | [] => some [] | _ => none
+  | .st => match stack with | [] => some [] | _ => none
+  | .bm => match stack with | [] => some [.micro 0] | _ => none
+  | .am => match stack with | [.micro _] => some [] | _ => none
+  | .bcomp => match stack with | [] => some [.completion] | _ => none
+  | .acomp => match stack with | [.completion] => some [] | _ => none
   -- exits
-  | "bx", [.micro p] => if p == 0 then some [.exitS v, .micro 0] else none
-  | "ax", .exitS w :: rest => if v == w then some rest else none
+  | .bx v => match stack with | [.micro p] => if p == 0 then some [.exitS v, .micro 0] else none | _ => none
+  | .ax v => match stack with | .exitS w :: rest => if v == w then some rest else none | _ => none
   -- transitions (those of <initial>/<history> are reported while entering their parent)
-  | "bt", [.micro p] => if p ≤ 1 then some [.trans v, .micro 1] else some [.trans v, .micro p]
-  | "at", .trans w :: rest => if v == w then some rest else none
+  | .bt v => match stack with | [.micro p] => if p ≤ 1 then some [.trans v, .micro 1] else some [.trans v, .micro p] | _ => none
+  | .at v => match stack with | .trans w :: rest => if v == w then some rest else none | _ => none
   -- entries
-  | "be", [.micro _] => some [.enterS v, .micro 2]
-  | "ae", .enterS w :: rest => if v == w then some rest else none
+  | .be v => match stack with | [.micro _] => some [.enterS v, .micro 2] | _ => none
+  | .ae v => match stack with | .enterS w :: rest => if v == w then some rest else none | _ => none
   -- executable content: inside an exit, entry, transition, other content or the completion
-  | "bc", .exitS _ :: _ => some (.content v :: stack)
-  | "bc", .enterS _ :: _ => some (.content v :: stack)
-  | "bc", .trans _ :: _ => some (.content v :: stack)
-  | "bc", .content _ :: _ => some (.content v :: stack)
-  | "bc", .completion :: _ => some (.content v :: stack)
-  | "ac", .content w :: rest => if v == w then some rest else none
-  | _, _ => none
+  | .bc v =>
+    match stack with
+    | .exitS _ :: _ | .enterS _ :: _ | .trans _ :: _ | .content _ :: _ | .completion :: _ => some (.content v :: stack)
+    | _ => none
+  | .ac v => match stack with | .content w :: rest => if v == w then some rest else none | _ => none
+
+/-- run the automaton over a chronological list of tokens -/
+def runT : List Frame → List Tok → Option (List Frame)
+  | stack, [] => some stack
+  | stack, t :: rest => (stepTok stack t).bind (fun s => runT s rest)
 
 /-- index of the first offending token, if any; the trace must end with an empty stack -/
-def check : List String → List Frame → Nat → Option Nat
+def checkT : List Tok → List Frame → Nat → Option Nat
   | [], [], _ => none
   | [], _ :: _, i => some i
   | t :: rest, stack, i =>
     match stepTok stack t with
-    | some stack' => check rest stack' (i + 1)
+    | some stack' => checkT rest stack' (i + 1)
     | none => some i
 
-def wellNested (trace : List String) : Bool := (check trace [] 0).isNone
+def check (trace : List String) (stack : List Frame) (i : Nat) : Option Nat := checkT (trace.map parseTok) stack i
+
+def wellNestedT (trace : List Tok) : Bool := (checkT trace [] 0).isNone
+def wellNested (trace : List String) : Bool := wellNestedT (trace.map parseTok)
 
 end UscxmlVerif.Spec.Nesting
